@@ -74,12 +74,18 @@ def parse_dump_fast(path):
     return out
 
 
-def tlc_states(ctx, module, cfg_path, timeout=None, workers=None, count=True, label=None):
+def tlc_states(ctx, module, cfg_path, timeout=None, workers=None, count=True, label=None, coverage=False,
+               required_actions=()):
     """Run TLC (model checking, all invariants of the cfg) with -dump and return the reachable
     states.  An invariant violation here is reported like ctx.mc does."""
     dump = os.path.join(ctx.scratch, "%s_%d" % (module, len(os.listdir(ctx.scratch))))
     r = tlc.run(SPEC_DIR, module, cfg_path, timeout=timeout or ctx.pick(400, 1500), dump=dump, workers=workers,
-                deadlock=False)
+                deadlock=False, coverage=coverage)
+    for a, (d, t) in r.coverage.items():
+        ctx.cov["coverage_by_action"][module + "." + a] = ctx.cov["coverage_by_action"].get(module + "." + a, 0) + t
+    for a in required_actions:
+        if r.coverage.get(a, (0, 0))[1] == 0:
+            raise Machinery("vacuity: action %s of %s never taken" % (a, module))
     ctx.cov["checker_cmd"].append("tlc -dump -config %s %s" % (os.path.basename(cfg_path), module))
     if count:
         ctx.cov["states"] += r.distinct
